@@ -97,6 +97,18 @@ def handleVal : List String → String
     | none => "bad-op"
   | _ => "bad-op"
 
+/-- the hand-written validator variants (second harness TU) -/
+def handleVal2 : List String → String
+  | ["name", s] => match ofHexStr s with
+    | some s => match validNameHand s with
+      | some b => bool01 b
+      | none => "OOB"
+    | none => "bad-op"
+  | ["unit", s] => match ofHexStr s with
+    | some s => bool01 (validUnitHand s)
+    | none => "bad-op"
+  | _ => "bad-op"
+
 def matcherArg (m : String) (arg : Bytes) : Option Matcher :=
   match m with
   | "name" => some (.nameEq arg) | "ver" => some (.versionEq arg) | "schema" => some (.schemaEq arg)
@@ -170,6 +182,6 @@ def handleSc : List String → String
     | _ => "bad-op"
   | _ => "bad-op"
 
-def C19.handlers : List (String × (List String → String)) := [("val", handleVal), ("mv", handleMv), ("sc", handleSc)]
+def C19.handlers : List (String × (List String → String)) := [("val", handleVal), ("val2", handleVal2), ("mv", handleMv), ("sc", handleSc)]
 
 end Driver
